@@ -324,6 +324,10 @@ package keeper
 //@ axiom sumDur.mono: forall s Slice_order_RenewInfo, m int, n int :: 0 <= m && m <= n && (forall k int :: 0 <= k && k < n ==> s[k].Duration >= 0) ==> 0 <= sumDur(s, m) && sumDur(s, m) <= sumDur(s, n)
 
 // Renew: the owner of data models buys a further storage period for each of them; the providers top up their shard collateral.
+// Per shard (one iteration of loop L4; iter(e) is e at the start of the iteration): the renewal is queued on the stored shard
+// ([C11.renew.queued], loop invariant over the processed prefix), the increase of the shard's pledge is paid into the node escrow or
+// booked as debt ([C07.renew.topup.paid]; a provider with a zero balance is left out: sending a zero coin is outside the bank model)
+// and added to the provider's stored TotalShardPledged ([C07.renew.topup.stored]).
 //@ func (msgServer) Renew(goCtx, msg) (resp, err)
 //@   requires msg != nil
 //@   requires [C16.inv.order] forall i int :: 0 <= i && i <= MaxUint64 && has(Order, i) ==> i < effOrderCount(get(OrderCount))
@@ -349,6 +353,11 @@ package keeper
 //@   at SetShard assert [C07.renew.topup.stored] [C14.renew.topup.stored] [C02.renew.topup.stored] [C06.renew.topup.stored]
 //@       newPledge.Amount > Shard[shard.Id].Pledge.Amount && iter(has(Pledge, shard.Sp)) ==> has(Pledge, shard.Sp)
 //@       && Pledge[shard.Sp].TotalShardPledged.Amount == iter(Pledge[shard.Sp].TotalShardPledged.Amount) + newPledge.Amount - Shard[shard.Id].Pledge.Amount
+//@   at SetShard assert [C07.renew.topup.paid] [C06.renew.topup.paid] newPledge.Amount > Shard[shard.Id].Pledge.Amount && addr(shard.Sp) != moduleAddr("node")
+//@       && iter(bal(addr(shard.Sp), newPledge.Denom)) > 0 ==>
+//@       (bal(moduleAddr("node"), newPledge.Denom) - iter(bal(moduleAddr("node"), newPledge.Denom)))
+//@       + ((has(PledgeDebt, shard.Sp) ? PledgeDebt[shard.Sp].Debt.Amount : 0) - (iter(has(PledgeDebt, shard.Sp)) ? iter(PledgeDebt[shard.Sp].Debt.Amount) : 0))
+//@       == newPledge.Amount - Shard[shard.Id].Pledge.Amount
 //@   at SetPledge assert [C07.renew.topup] [C14.renew.topup] [C02.renew.topup] [C06.renew.topup] has(Pledge, shard.Sp) ==> pledge.TotalShardPledged.Amount == Pledge[shard.Sp].TotalShardPledged.Amount + extraPledge.Amount
 //@       && pledge.TotalStoragePledged == Pledge[shard.Sp].TotalStoragePledged && pledge.TotalStorage == Pledge[shard.Sp].TotalStorage && pledge.UsedStorage == Pledge[shard.Sp].UsedStorage
 //@   at SetShard assert [C07.renew.shardpledge] shard.Pledge.Amount >= Shard[shard.Id].Pledge.Amount && shard.Pledge.Amount >= newPledge.Amount
@@ -382,6 +391,10 @@ package keeper
 //@   loop L4 invariant forall a int, b int :: 0 <= a && a < b && b < len(shards) ==> shards[a].Id != shards[b].Id
 //@   loop L4 invariant forall i int :: 0 <= i && i <= MaxUint64 && has(Shard, i) ==> Shard[i].CreatedAt + Shard[i].Duration + sumDur(Shard[i].RenewInfos, len(Shard[i].RenewInfos))
 //@       <= entry(Shard[i].CreatedAt + Shard[i].Duration + sumDur(Shard[i].RenewInfos, len(Shard[i].RenewInfos))) + msg0.Proposal.Duration
+//@   loop L4 invariant [C11.renew.queued] [C04.renew.queued] [C13.renew.queued] forall q int :: 0 <= q && q <= rangeindex && shards[q].Status != ShardMigrating ==> has(Shard, shards[q].Id)
+//@       && len(Shard[shards[q].Id].RenewInfos) == len(shards[q].RenewInfos) + 1 && Shard[shards[q].Id].RenewInfos[len(shards[q].RenewInfos)].OrderId == newOrder.Id
+//@       && Shard[shards[q].Id].RenewInfos[len(shards[q].RenewInfos)].Duration == msg0.Proposal.Duration && Shard[shards[q].Id].Pledge.Amount >= shards[q].Pledge.Amount
+//@       && Shard[shards[q].Id].CreatedAt == shards[q].CreatedAt && Shard[shards[q].Id].Duration == shards[q].Duration && Shard[shards[q].Id].OrderId == shards[q].OrderId
 //@   loop L5 invariant -1 <= rangeindex && rangeindex < len(shard.RenewInfos)
 //@   loop L5 invariant shard.CreatedAt + shard.Duration + sumDur(shard.RenewInfos, len(shard.RenewInfos)) <= MaxUint64
 //@   loop L5 invariant [C11.renew.end] shardExpiredAt == shard.CreatedAt + shard.Duration + sumDur(shard.RenewInfos, rangeindex + 1)
